@@ -119,6 +119,9 @@ fn insert_type(items: &mut Vec<Item>, name: &str, kind: &str, k: usize) -> bool 
     let new_item: Item = match kind {
         "opaque" | "opaque_impl" => parse_quote! { #[diplomat::opaque] pub struct #ident(u8); },
         "struct" => parse_quote! { pub struct #ident { pub verif_a: u8, pub verif_b: i32 } },
+        // (a third of the inserted traits are disabled in one backend: ids of the other traits must not shift)
+        "trait" if k % 3 == 1 => parse_quote! { #[diplomat::attr(c, disable)] pub trait #ident { fn verif_m(&self, x: u32) -> u32; } },
+        "trait" if k % 3 == 2 => parse_quote! { #[diplomat::attr(kotlin, disable)] pub trait #ident { fn verif_m(&self, x: u32) -> u32; } },
         "trait" => parse_quote! { pub trait #ident { fn verif_m(&self, x: u32) -> u32; } },
         _ => parse_quote! { pub enum #ident { VerifA, VerifB, VerifC } },
     };
@@ -283,6 +286,33 @@ fn insert_uses(items: &mut Vec<Item>, name: &str, k: usize) -> bool {
                             _ => methods.push(parse_quote! { pub fn #f(x: &[u8]) -> u8 { x.len() as u8 } }),
                         }
                     }
+                    // member names of other types reused: named constructors called like static methods of local enums
+                    let enum_names: Vec<String> = local.iter().filter(|(_, k)| *k == "enum").map(|(n, _)| n.clone()).collect();
+                    let mut statics: Vec<String> = vec![];
+                    for i in inner.iter() {
+                        if let Item::Impl(im) = i {
+                            if let syn::Type::Path(tp) = &*im.self_ty {
+                                if tp.path.get_ident().map(|id| enum_names.contains(&id.to_string())).unwrap_or(false) {
+                                    for ii in &im.items {
+                                        if let syn::ImplItem::Fn(f) = ii {
+                                            if f.sig.receiver().is_none() && matches!(f.vis, syn::Visibility::Public(_)) {
+                                                statics.push(f.sig.ident.to_string());
+                                            }
+                                        }
+                                    }
+                                }
+                            }
+                        }
+                    }
+                    statics.sort();
+                    statics.dedup();
+                    for (t, nm) in statics.iter().take(2).enumerate() {
+                        let f = syn::Ident::new(&format!("verif_named{}", t), proc_macro2::Span::call_site());
+                        methods.push(parse_quote! {
+                            #[diplomat::attr(auto, named_constructor = #nm)]
+                            pub fn #f() -> Box<#ident> { Box::new(#ident(0)) }
+                        });
+                    }
                     let ty_item: Item = parse_quote! { #[diplomat::opaque] pub struct #ident(u8); };
                     let impl_item: Item = parse_quote! { impl #ident { #(#methods)* } };
                     let at = (k / 3 + j) % (inner.len() + 1);
@@ -423,13 +453,19 @@ fn insert_shadow_module(items: &mut Vec<Item>, k: u32, rng: &mut Rng) -> bool {
     let modname = syn::Ident::new(&shadow_mod_name(k, rng.chance(1, 2)), proc_macro2::Span::call_site());
     let rename = format!("VerifShadow{}", k);
     let abi = format!("verifshadow{}_{{0}}", k);
+    // a third of the shadow types keep their name and differ from the original by namespace only; backends without
+    // namespaces would see two types of one name, so this variant exists for cpp and nanobind only
+    let ns_only = rng.chance(1, 3);
     let ty: Item = match kind {
+        "opaque" if ns_only => parse_quote! { #[diplomat::opaque] #[diplomat::attr(not(any(cpp, nanobind)), disable)] pub struct #ident(u8); },
+        "struct" if ns_only => parse_quote! { #[diplomat::attr(not(any(cpp, nanobind)), disable)] pub struct #ident { pub verif_a: u8, pub verif_b: i32 } },
+        _ if ns_only => parse_quote! { #[diplomat::attr(not(any(cpp, nanobind)), disable)] pub enum #ident { VerifA, VerifB } },
         "opaque" => parse_quote! { #[diplomat::opaque] #[diplomat::attr(*, rename = #rename)] pub struct #ident(u8); },
         "struct" => parse_quote! { #[diplomat::attr(*, rename = #rename)] pub struct #ident { pub verif_a: u8, pub verif_b: i32 } },
         _ => parse_quote! { #[diplomat::attr(*, rename = #rename)] pub enum #ident { VerifA, VerifB } },
     };
     // a shadow *struct* is also nested by value in a second new struct, whose name sorts before or after everything
-    let user: Option<Item> = if kind == "struct" {
+    let user: Option<Item> = if kind == "struct" && !ns_only {
         let uid = syn::Ident::new(&format!("{}VerifShadowUser{}", if rng.chance(1, 2) { "Aa" } else { "Zz" }, k), proc_macro2::Span::call_site());
         Some(parse_quote! { pub struct #uid { pub verif_inner: #ident, pub verif_tail: u8 } })
     } else {
@@ -437,7 +473,7 @@ fn insert_shadow_module(items: &mut Vec<Item>, k: u32, rng: &mut Rng) -> bool {
     };
     // half of the shadow modules also live in their own namespace (backends with namespacing qualify names)
     let ns = format!("verifns{}", k);
-    let m: Item = if rng.chance(1, 2) {
+    let m: Item = if rng.chance(1, 2) || ns_only {
         parse_quote! {
             #[diplomat::bridge]
             #[diplomat::abi_rename = #abi]
